@@ -317,6 +317,7 @@ def project_commands(run):
     cancelled_nodes = set()
     ended_blocks = set()
     resets, item_resets = {}, {}          # how often a line was reset; the count when a run-log item was created for it
+    forced_nodes = set()                  # lines with an accepted force
 
     def ancestors(nid):
         out, cur, seen = [], nodes.get(nid, {}).get("parent", ""), set()
@@ -399,6 +400,8 @@ def project_commands(run):
                 kind = "other"
             if kind in ("threshold", "wait", "watch", "alarm") and (set(ancestors(node)) & ended_blocks):
                 kind += "-in-ended-block"            # its block has ended: nothing is left that could proceed
+            if e["k"] == "force" and e["res"] == "ok":
+                forced_nodes.add(node)
             out.append({"e": "req", "k": e["k"], "item": e["item"], "node": node, "offered": bool(e.get("offered")),
                         "res": "ok" if e["res"] == "ok" else "rejected", "unchanged": bool(e.get("unchanged", True)),
                         "kind": kind, "cls": cls, "target": e["item"], "runId": run_id, "t": e["t"],
@@ -416,6 +419,8 @@ def project_commands(run):
             run_id = e["runId"]
             out.append({"e": "tickEnd", "t": e["t"], "started": e["started"], "paused": e["paused"], "holding": e["holding"],
                         "runId": e["runId"], "err": e["err"], "inst": e["inst"], "simulated": e["simulated"],
-                        "bodyStarted": sorted(set(body_started)), "proceededEver": sorted(proceeded), "firstLine": first_line})
+                        "bodyStarted": sorted(set(body_started)), "proceededEver": sorted(proceeded), "firstLine": first_line,
+                        # forced lines whose block has ended since: nothing in an ended block proceeds (C04 / C05)
+                        "forcedDead": sorted(n for n in forced_nodes if set(ancestors(n)) & ended_blocks)})
             body_started, first_line = [], ""
     return {"id": run["id"], "ev": out}
